@@ -4,3 +4,4 @@ import PrologVerif.Model.Ops
 import PrologVerif.Spec.OpTable
 import PrologVerif.Spec.Iter
 import PrologVerif.Model.Solutions
+import PrologVerif.Model.Api
